@@ -87,6 +87,7 @@ fn main() {
             "C14" => print_replay(&id, props::c14::replay(&name, &path)),
             "C15" => print_replay(&id, props::c15::replay(&name, &path)),
             "C16" => print_replay(&id, props::c16::replay(&name, &path)),
+            "C17" => print_replay(&id, props::c17::replay(&name, &path)),
             _ => {
                 eprintln!("unknown property {id}");
                 2
@@ -108,6 +109,7 @@ fn main() {
             "C14" => props::c14::check(&tier),
             "C15" => props::c15::check(&tier),
             "C16" => props::c16::check(&tier),
+            "C17" => props::c17::check(&tier),
             _ => {
                 eprintln!("unknown property {id}");
                 2
